@@ -190,6 +190,19 @@ Proof.
   intros n Hn. apply ends_with_big; assumption.
 Qed.
 
+Lemma rel_pl_big ck a v : bok v -> 0 <= voff a -> rel_pl_b ck a v = rel_pl_m ck a (to_view v).
+Proof.
+  intros Hv Ha. unfold rel_pl_b, rel_pl_m.
+  apply (with_cstr_big a (fun n => rel6_b ck n v) (fun n => rel6_m ck n (to_view v))); [assumption|].
+  intros n Hn. apply rel6_big; assumption.
+Qed.
+Lemma rel_pr_big ck v a : bok v -> 0 <= voff a -> rel_pr_b ck v a = rel_pr_m ck (to_view v) a.
+Proof.
+  intros Hv Ha. unfold rel_pr_b, rel_pr_m.
+  apply (with_cstr_big a (fun n => rel6_b ck v n) (fun n => rel6_m ck (to_view v) n)); [assumption|].
+  intros n Hn. apply rel6_big; assumption.
+Qed.
+
 Lemma index_big v pos : bok v -> index_b v pos = index_m (to_view v) pos.
 Proof.
   intros Hv. unfold index_b, index_m, at_chk. change (vlen (to_view v)) with (blen v).
